@@ -428,6 +428,10 @@ func run(seed int64, n int, out string, args []string) {
 		}
 	}
 	plan = append(plan, job{run: func() { unaryWitnesses(o) }})
+	for _, w := range opxWitnesses {
+		ws := strings.Fields(w)
+		plan = append(plan, job{vets: []vetItem{{"SELECT " + w, false, false}}, run: func() { opxCase(o, ws) }})
+	}
 	ps := newParseStream(o, g)
 	defer ps.close()
 	plan = append(plan, ps.witnesses()...)
@@ -443,6 +447,10 @@ func run(seed int64, n int, out string, args []string) {
 	for i := 0; i < nUnary; i++ {
 		t := genUnary(g)
 		plan = append(plan, job{run: func() { unaryCase(o, t) }})
+	}
+	for i := 0; i < n/6; i++ {
+		ws := genOpxWords(g)
+		plan = append(plan, job{vets: []vetItem{{"SELECT " + strings.Join(ws, " "), false, false}}, run: func() { opxCase(o, ws) }})
 	}
 	plan = append(plan, ps.plan(n-nEsc-nScan-nUnary)...)
 
